@@ -26,7 +26,7 @@ pub fn gstr(s: &str) -> String {
             if i > 0 {
                 out.push(';');
             }
-            let _ = write!(out, "{}", b);
+            let _ = write!(out, "{}%N", b);
         }
         out.push_str("])");
         out
